@@ -931,6 +931,35 @@ fn corpus() -> Vec<Vec<&'static str>> {
         vec!["reset", "get 0 0 one t=r0g.1 reg", "found 0 1 r0b.1"],
         vec!["reset", "get 0 0 majority", "get 0 1 majority", "get 0 2 majority", "hangup 1", "found 0 1 hc0", "found 0 2 hc0", "found 0 3 hc0"],
         vec!["reset", "get 0 0 n3", "get 1 1 one", "get 0 2 n3", "get 0 3 n3", "found 1 1 x0", "notfound 0", "quorumfailed 1"],
+        // expected value given (`does_target_match`): plain bytes, is_register (base + ops), undecodable records
+        vec!["reset", "get 0 0 one t=r0g.1 reg", "found 0 1 r0g.1"],
+        vec!["reset", "get 0 0 one t=r0g.1 reg", "found 0 1 r0g.1.2"],
+        vec!["reset", "get 0 0 one t=r0g.1.2 reg", "found 0 1 r0g.1"],
+        vec!["reset", "get 0 0 one t=r0g.1 reg", "found 0 1 r0g.2"],
+        vec!["reset", "get 0 0 one t=r0g.1 reg", "found 0 1 r1g.1"],
+        vec!["reset", "get 0 0 one t=r0g.1 reg", "found 0 1 r0b.1"],
+        vec!["reset", "get 0 0 one t=r0g.1 reg", "found 0 1 hr0"],
+        vec!["reset", "get 0 0 one t=hr0 reg", "found 0 1 hr0"],
+        vec!["reset", "get 0 0 one t=r0g reg", "found 0 1 r0g.0"],
+        vec!["reset", "get 0 0 one t=r0g reg", "found 0 1 r0g"],
+        vec!["reset", "get 0 0 one t=r0g.1 reg", "found 0 1 r0g.1.6"],
+        vec!["reset", "get 0 0 one t=t0 reg", "found 0 1 t0"],
+        vec!["reset", "get 0 0 one t=r0g.1", "found 0 1 r0b.1"],
+        vec!["reset", "get 0 0 one t=r0g.1", "found 0 1 r0g.1"],
+        vec!["reset", "get 0 0 n2 t=r0g.0 reg", "found 0 1 r0g.0.1", "found 0 2 r0g.0.1"],
+        vec!["reset", "get 0 0 majority t=r0g.0.1 reg", "get 0 1 majority t=r0g.0.1 reg", "found 0 1 r0g.0.1", "found 0 2 r0b.0.1", "found 0 3 r0g.0.1", "found 0 4 r0g.0.1"],
+        vec!["reset", "get 0 0 one t=hc0", "found 0 1 hc0"],
+        vec!["reset", "get 0 0 one t=x0", "found 0 1 x1"],
+        vec!["reset", "get 0 0 one t=t0.1", "found 0 1 t1.0"],
+        vec!["reset", "get 0 0 one t=t0.1", "found 0 1 t0.1"],
+        vec!["reset", "get 0 0 one t=s0.1.0g", "found 0 1 s0.2.0g"],
+        vec!["reset", "get 0 0 one t=s0.1.0g", "found 0 1 s0.1.0g"],
+        // Quorum::N up to the replication factor and beyond: exactly that many distinct peers are needed
+        vec!["reset", "get 0 0 n6", "found 0 1 hc0", "found 0 2 hc0", "found 0 3 hc0", "found 0 3 hc0", "found 0 4 hc0", "found 0 5 hc0", "dump", "found 0 6 hc0"],
+        vec!["reset", "get 0 0 n6", "found 0 1 hc0", "found 0 2 hc0", "found 0 3 hc0", "found 0 4 hc0", "found 0 5 hc0", "finished 0"],
+        vec!["reset", "get 0 0 n7", "found 0 1 hc0", "found 0 2 hc0", "found 0 3 hc0", "found 0 4 hc0", "found 0 5 hc0", "found 0 6 hc0", "timeout 0"],
+        vec!["reset", "get 0 0 n8", "found 0 0 hc0", "found 0 1 hc0", "found 0 2 hc0", "found 0 3 hc0", "found 0 4 hc0", "found 0 5 hc0", "found 0 6 hc0", "dump", "found 0 7 hc0"],
+        vec!["reset", "get 0 0 n5", "get 0 1 n5", "found 0 1 hc0", "found 0 2 hc0", "found 0 3 hc0", "found 0 4 hc0", "found 0 4 hc0", "found 0 5 hc0"],
         vec!["reset", "merge t0.1 t1.2 t3", "merge t1 t1.1", "merge s0.1.0g s0.3.1b s0.2.0g", "merge s0.2.0g s0.2.1g", "merge r0g.0 r0b.1 r0g.2.6 r0g.3", "merge r0g.0 r1g.1", "merge hc0 t0.1 t2", "merge x0 t0.1 t2 hr0"],
     ]
 }
@@ -958,7 +987,7 @@ fn gen_quorum(rng: &mut Rng) -> String {
         12..=15 => "n2".into(),
         16..=17 => "n3".into(),
         18 => "n1".into(),
-        _ => format!("n{}", rng.range(4, 6)),
+        _ => format!("n{}", rng.range(4, 8)),
     }
 }
 
@@ -971,14 +1000,125 @@ fn run_line(h: &mut H, out: &mut Out, line: &str) -> String {
     r
 }
 
+/// Quorum::N(1..=8) / majority / all against 0..=8 distinct agreeing peers (plus duplicates, optionally a
+/// second version), then a terminating event.
+fn gen_saturation(h: &mut H, rng: &mut Rng, out: &mut Out) {
+    run_line(h, out, "reset");
+    let q = match rng.below(10) {
+        0 => "majority".to_string(),
+        1 => "all".to_string(),
+        _ => format!("n{}", rng.range(1, 8)),
+    };
+    let ncallers = rng.range(1, 3);
+    for c in 0..ncallers {
+        run_line(h, out, &format!("get 0 {c} {q}"));
+    }
+    let main = *rng.pick(&["hc0", "t0.1", "r0g.0", "s0.1.0g", "x0"]);
+    let other = *rng.pick(&["hc1", "t2", "r0g.1", "s0.2.0g", "x1"]);
+    let distinct = rng.below(9);
+    let mut peers: Vec<u64> = (0..9).collect();
+    rng.shuffle(&mut peers);
+    peers.truncate(distinct as usize);
+    let mut seen: Vec<u64> = vec![];
+    for p in peers {
+        if !seen.is_empty() && rng.chance(1, 3) {
+            let d = *rng.pick(&seen);
+            run_line(h, out, &format!("found 0 {d} {main}"));
+        }
+        if rng.chance(1, 8) {
+            run_line(h, out, &format!("found 0 {p} {other}"));
+        }
+        run_line(h, out, &format!("found 0 {p} {main}"));
+        seen.push(p);
+    }
+    out.count(&format!("saturation:{q}:{distinct}-distinct-peers"));
+    run_line(h, out, "dump");
+    let kind = *rng.pick(&["finished", "timeout", "notfound", "quorumfailed"]);
+    let r = run_line(h, out, &format!("{kind} 0"));
+    if let Some(i) = r.find(" split ") {
+        let first = r[i + 7..].split(" ; ").next().unwrap_or("");
+        let toks: Vec<&str> = first.split(',').filter_map(|kv| kv.split('=').next()).collect();
+        run_line(h, out, &format!("merge {}", toks.join(" ")));
+    }
+}
+
+/// A caller that gives an expected value of some kind, and enough peers returning a value that is equal to it /
+/// a superset / a subset / disjoint / of another base / badly signed / of another kind.
+fn gen_target(h: &mut H, rng: &mut Rng, out: &mut Out) {
+    run_line(h, out, "reset");
+    // (target, reply, relation)
+    let reg_cases: Vec<(&str, &str, &str)> = vec![
+        ("r0g.1", "r0g.1", "equal"), ("r0g.0.2", "r0g.0.2", "equal"), ("r0g", "r0g", "equal"),
+        ("r0g.1", "r0g.1.2", "superset"), ("r0g.0", "r0g.0.1", "superset"), ("r0g", "r0g.3", "superset"), ("r0g.1", "r0g.1.6", "superset"),
+        ("r0g.1.2", "r0g.1", "subset"), ("r0g.0.1", "r0g.0", "subset"), ("r0g.3", "r0g", "subset"),
+        ("r0g.1", "r0g.2", "disjoint"), ("r0g.0.1", "r0g.1.2", "overlap"),
+        ("r0g.1", "r1g.1", "other-base"), ("r1g.0", "r0g.0", "other-base"),
+        ("r0g.1", "r0b.1", "bad-signature"), ("r0b.1", "r0g.1", "bad-signature"), ("r0g.0.1", "r0b.0.1", "bad-signature"),
+        ("r0g.1", "hr0", "undecodable"), ("hr0", "hr0", "undecodable"), ("r0g.1", "t0", "other-kind"), ("t0", "t0", "other-kind"),
+    ];
+    let plain_cases: Vec<(&str, &str, &str)> = vec![
+        ("hc0", "hc0", "equal"), ("hc0", "hc1", "different"), ("x0", "x0", "equal"), ("x0", "x1", "different"),
+        ("t0.1", "t0.1", "equal"), ("t0.1", "t1.0", "different"), ("t0", "t0.1", "different"),
+        ("s0.1.0g", "s0.1.0g", "equal"), ("s0.1.0g", "s0.2.0g", "different"), ("s0.1.0g", "s0.1.1g", "different"),
+        ("r0g.1", "r0g.1", "equal"), ("r0g.1", "r0b.1", "different"), ("r0g.1", "r0g.1.2", "different"), ("hp0", "hp0", "equal"),
+    ];
+    let is_reg = rng.chance(3, 5);
+    let (t, r, rel) = if is_reg { *rng.pick(&reg_cases) } else { *rng.pick(&plain_cases) };
+    let q = match rng.below(6) {
+        0 | 1 => "one".to_string(),
+        2 => "majority".to_string(),
+        _ => format!("n{}", rng.range(1, 4)),
+    };
+    let cfg = format!("{q} t={t}{}", if is_reg { " reg" } else { "" });
+    let ncallers = rng.range(1, 3);
+    for c in 0..ncallers {
+        run_line(h, out, &format!("get 0 {c} {cfg}"));
+    }
+    out.count(&format!("target:{}:{rel}", if is_reg { "is_register" } else { "plain" }));
+    let need = match q.as_str() {
+        "one" => 1,
+        "majority" => 3,
+        n => n[1..].parse::<u64>().unwrap_or(1),
+    };
+    for p in 1..=need + 1 {
+        if rng.chance(1, 6) {
+            // an occasional reply that does equal the target
+            run_line(h, out, &format!("found 0 {} {t}", p + 10));
+        }
+        let line = format!("found 0 {p} {r}");
+        let res = run_line(h, out, &line);
+        if rng.chance(1, 5) {
+            run_line(h, out, &line);
+        }
+        if let Some(i) = res.find(" split ") {
+            let first = res[i + 7..].split(" ; ").next().unwrap_or("");
+            let toks: Vec<&str> = first.split(',').filter_map(|kv| kv.split('=').next()).collect();
+            run_line(h, out, &format!("merge {}", toks.join(" ")));
+        }
+    }
+    loop {
+        let ids = h.pending_ids();
+        let Some(qi) = (0..h.queries.len()).find(|i| ids.contains(&h.queries[*i].id)) else { break };
+        run_line(h, out, &format!("finished {qi}"));
+        if h.pending_ids().iter().any(|id| *id == h.queries[qi].id) {
+            break;
+        }
+    }
+}
+
 fn gen_history(h: &mut H, rng: &mut Rng, out: &mut Out) {
+    match rng.below(10) {
+        0 | 1 => return gen_saturation(h, rng, out),
+        2 | 3 => return gen_target(h, rng, out),
+        _ => {}
+    }
     run_line(h, out, "reset");
     let fam = rng.below(6);
     let pool = pool(rng, fam);
     let nkeys = if rng.chance(1, 4) { 2 } else { 1 };
     let same_cfg = rng.chance(1, 2); // half of the histories: every caller of a key uses the first caller's cfg
     let mut cfg_of_key: HashMap<u64, String> = HashMap::new();
-    let npeers = rng.range(2, 6);
+    let npeers = rng.range(2, 9);
     let steps = rng.range(4, 16);
     let gen_get = |h: &mut H, rng: &mut Rng, out: &mut Out, cfg_of_key: &mut HashMap<u64, String>| {
         let k = rng.below(nkeys);
